@@ -45,6 +45,9 @@ var stQuietLog = slog.New(slog.NewTextHandler(io.Discard, &slog.HandlerOptions{L
 
 type stStore struct {
 	Kind string
+	// Tiny: badger with the smallest buffers it accepts (a reopen then costs a fraction:
+	// C22 reopens its stores thousands of times and stores a handful of records)
+	Tiny bool
 	dir  string
 	mr   *miniredis.Miniredis
 	mem  vfs.FS
@@ -101,6 +104,9 @@ func (s *stStore) Hook() (mqtt.Hook, any) {
 		o := badgerdb.DefaultOptions(s.dir).
 			WithMemTableSize(4 << 20).WithValueThreshold(1 << 10).WithValueLogFileSize(1 << 20).
 			WithNumMemtables(1).WithBlockCacheSize(1 << 20).WithNumCompactors(2).WithSyncWrites(false)
+		if s.Tiny {
+			o = o.WithMemTableSize(256 << 10).WithBaseTableSize(256 << 10).WithCompactL0OnClose(true)
+		}
 		return new(badger.Hook), &badger.Options{Path: s.dir, Options: &o}
 	case "pebble":
 		return new(pebble.Hook), &pebble.Options{Path: "pebble", Options: &pebbledb.Options{FS: s.mem, Logger: stPebbleQuiet{}}}
